@@ -7,6 +7,7 @@ import (
 	"encoding/json"
 	"fmt"
 	"github.com/DrmagicE/gmqtt"
+	"github.com/DrmagicE/gmqtt/config"
 	"github.com/DrmagicE/gmqtt/server"
 	"math/rand"
 	"strings"
@@ -28,6 +29,9 @@ type Case struct {
 	Delay      uint32 // v5 will delay interval (s)
 	Rich       bool   // v5 will properties
 	Expiry     uint32 // v5 session expiry (s); v3: 0 = clean session, else persistent
+	// RefuseQueueDel (with Reattach clean_before): the broker runs on redis, which refuses the DEL of the session's
+	// queue while the Clean Start 1 reconnect ends the old session. The session has ended: the will is due then.
+	RefuseQueueDel bool `json:",omitempty"`
 	End        string // disc0 | disc4 | close | malformed | keepalive | takeover0 | takeover1 | server_close | terminate
 	Reattach   string // never | before | after | clean_before
 	// DISCONNECT 0x04 carrying its own Session Expiry Interval, which replaces the CONNECT value
@@ -42,6 +46,10 @@ func (c Case) effExpiry() uint32 {
 	}
 	return c.Expiry
 }
+
+// RedisCfgFault (set by the registration code) switches a configuration to the redis back end on a private fake
+// redis and returns arm(cmd, key): redis refuses the next such command with an error reply.
+var RedisCfgFault func(c *config.Config) (cleanup func(), arm func(cmd, key string), err error)
 
 const margin = 400 * time.Millisecond
 const step = 10 * time.Second
@@ -65,16 +73,30 @@ func runCase(c Case, idx int) (fs []finding, incon string, obs map[string]int, r
 	obs = map[string]int{}
 	caseStart := time.Now()
 	add := func(sig, what string) { fs = append(fs, finding{sig, what}) }
+	var redisCleanup func()
+	var arm func(cmd, key string)
 	b, err := broker.Start(broker.Options{Hooks: server.Hooks{OnMsgArrived: func(ctx context.Context, cl server.Client, req *server.MsgArrivedRequest) error {
 		if req.Message != nil && strings.HasPrefix(req.Message.Topic, "busy/") {
 			time.Sleep(120 * time.Millisecond) // a slow plugin: the packet handler is busy while the rest arrives
 		}
 		return nil
-	}}})
+	}}, Cfg: func(cf *config.Config) {
+		if c.RefuseQueueDel && RedisCfgFault != nil {
+			redisCleanup, arm, _ = RedisCfgFault(cf)
+		}
+	}})
 	if err != nil {
 		return nil, "", nil, err
 	}
-	defer b.Stop(step)
+	defer func() {
+		b.Stop(step)
+		if redisCleanup != nil {
+			redisCleanup()
+		}
+	}()
+	if c.RefuseQueueDel && arm == nil {
+		return nil, "", nil, fmt.Errorf("no fault-capable redis")
+	}
 	o, err := wire.Dial("obs", b.Addr, mqttx.V5)
 	if err != nil {
 		return nil, "", nil, err
@@ -235,9 +257,15 @@ func runCase(c Case, idx int) (fs []finding, incon string, obs map[string]int, r
 			return nil, "", nil, err
 		}
 		defer w3.Close()
+		if c.RefuseQueueDel {
+			arm("DEL", "queue:"+id)
+			obs["session_ends_while_the_store_refuses_a_command"]++
+		}
 		tConn := broker.Now()
 		ack, err := w3.Connect(mkConnect(c.Reattach == "clean_before", false), step)
-		if err != nil || ack.Code != 0 {
+		if c.RefuseQueueDel && (err == nil || err == wire.ErrClosed) {
+			// whether the new connection is accepted after the store error is not the subject here
+		} else if err != nil || ack.Code != 0 {
 			return nil, "", nil, fmt.Errorf("re-attach: %v %v", ack, err)
 		}
 		if c.Reattach == "clean_before" {
@@ -284,6 +312,9 @@ func runCase(c Case, idx int) (fs []finding, incon string, obs map[string]int, r
 		}
 	}
 	kind := fmt.Sprintf("end=%s:reattach=%s:v=%d", c.End, c.Reattach, c.V)
+	if c.RefuseQueueDel {
+		kind += ":queue_del_refused=true"
+	}
 	if c.HasDiscExpiry {
 		kind += ":disconnect_expiry=" + map[bool]string{true: "raised", false: "lowered"}[c.DiscExpiry > c.Expiry]
 	}
@@ -386,13 +417,18 @@ func allCases(rng *rand.Rand, quick bool) []Case {
 			}
 		}
 	}
+	if RedisCfgFault != nil {
+		for _, end := range []string{"close", "malformed"} {
+			cs = append(cs, Case{V: 5, WillQoS: 1, Delay: 2, Expiry: 5, End: end, Reattach: "clean_before", RefuseQueueDel: true})
+		}
+	}
 	if quick {
 		rng.Shuffle(len(cs), func(i, j int) { cs[i], cs[j] = cs[j], cs[i] })
 		// keep one of every end kind and re-attachment kind, then fill up
 		seen := map[string]int{}
 		var keep, rest []Case
 		for _, c := range cs {
-			k := c.End + "|" + c.Reattach + fmt.Sprint(c.V == 5, c.HasDiscExpiry, c.DiscExpiry > c.Expiry, c.effDelay() != Case{V: c.V, Delay: c.Delay, Expiry: c.Expiry}.effDelay(), c.End == "takeover0" && c.effDelay() > 0)
+			k := c.End + "|" + c.Reattach + fmt.Sprint(c.V == 5, c.HasDiscExpiry, c.DiscExpiry > c.Expiry, c.effDelay() != Case{V: c.V, Delay: c.Delay, Expiry: c.Expiry}.effDelay(), c.End == "takeover0" && c.effDelay() > 0, c.RefuseQueueDel)
 			quota := 1
 			if c.End == "takeover0" && c.effDelay() > 0 {
 				quota = 4 // arming and cancelling the delayed will back to back is a race: several shots
